@@ -32,4 +32,25 @@ func init() {
 		}
 		return clusterCheck(prop, tier, p, []string{"leader_present", "two_leaders_different_terms", "op_acked"}, untimedAssumptions)
 	}
+	checks["C03"] = func(prop, tier string) int {
+		p := []plan{{"cli3-d2", 30}, {"rep3-d3", 70}, {"net3-d2", 20}, {"all2", 90}}
+		if tier == "thorough" {
+			p = []plan{{"cli3-d3", 200}, {"cli3-d4", 600}, {"rep3-d4", 500}, {"net3-d3", 120}, {"all2", 150}, {"rep4-d3", 150}}
+		}
+		return clusterCheck(prop, tier, p, []string{"leader_present", "op_acked", "op_applied_on_2plus_nodes"}, untimedAssumptions)
+	}
+	checks["C04"] = func(prop, tier string) int {
+		p := []plan{{"all1", 10}, {"crash2-d3", 30}, {"crash3-d2", 40}, {"lead3-d2", 30}, {"stale5-d2", 40}}
+		if tier == "thorough" {
+			p = []plan{{"all1", 10}, {"crash2-d4", 150}, {"crash3-d3", 400}, {"lead3-d3", 400}, {"stale5-d3", 300}, {"crash4-d2", 100}, {"crash5-d2", 150}}
+		}
+		return clusterCheck(prop, tier, p, []string{"leader_present", "op_acked", "restarted_node_up", "node_down"}, untimedAssumptions)
+	}
+	checks["C05"] = func(prop, tier string) int {
+		p := []plan{{"deposed3-d2", 20}, {"read3-d3", 40}, {"deposed3-d3", 90}}
+		if tier == "thorough" {
+			p = []plan{{"deposed3-d4", 600}, {"read3-d4", 600}, {"deposed3-d3", 120}}
+		}
+		return clusterCheck(prop, tier, p, []string{"leader_present", "op_acked", "read_served"}, append([]string{"at most one outstanding read-only operation per node (map iteration order inside the read-only loop is not controlled)"}, untimedAssumptions...))
+	}
 }
